@@ -50,7 +50,16 @@ def real_grammar(lang, seen_rules=None, unary_table=None):
     return binary, unary
 
 
+_seen_sets = {}
+
+
 def seen_rule_set(variant):
+    if variant not in _seen_sets:
+        _seen_sets[variant] = _seen_rule_set(variant)
+    return _seen_sets[variant]
+
+
+def _seen_rule_set(variant):
     from depccg.cat import Category
     return {
         (Category.parse(x).clear_features('X', 'nb'), Category.parse(y).clear_features('X', 'nb'))
